@@ -53,7 +53,11 @@ func GetIndexLetters(document *gedcom.Document, livingVisibility LivingVisibilit
 }
 
 func getIndexLetter(individual *gedcom.IndividualNode) rune {
-	name := strings.ToLower(individual.Name().Surname())
+	return getIndexLetterForSurname(individual.Name().Surname())
+}
+
+func getIndexLetterForSurname(surname string) rune {
+	name := strings.ToLower(surname)
 
 	switch {
 	case name == "", name[0] < 'a', name[0] > 'z':
